@@ -71,7 +71,9 @@ def run(ctx) -> None:
   ctx.rule('R3', 'wrapper-typed optional scalars: presence decided by HasField, never by truthiness of .value', 1)
   ctx.rule('R4', 'enum maps injective and total; trial-state functions cover every member', 5)
   ctx.rule('R5', 'no mutation of a message after it was copied into its container', 1)
-  ctx.import_rules('C10', {'R6'}, 'R7', 'metadata values: str, then Any (stored as is), then other messages packed once')
+  ctx.rule('R8', 'conditional children are never merged by name during conversion', 1)
+  ctx.rule('R9', 'datetime <-> Timestamp conversions use one convention (epoch seconds; no naive-UTC helpers)', 1)
+  ctx.import_rules('C10', {'R6', 'R1'}, 'R7', 'metadata values: str, then Any (stored as is), then other messages packed once')
   ctx.import_rules('C16', {'R8'}, 'R6', 'conditional spaces survive conversion only if every subspace owns its own config objects')
   mi = ctx.index.module_of_file(PC)
   pairs: List[Tuple[ClassInfo, FuncInfo, FuncInfo]] = []
@@ -109,6 +111,8 @@ def run(ctx) -> None:
   r2_object_side(ctx, mi, pairs)
   r4_enums(ctx, schema, mi)
   r5_write_after_copy(ctx, schema, mi, sc)
+  r8_children_not_keyed_by_name(ctx, mi)
+  r9_time_conventions(ctx, mi)
 
 
 # ----------------------------------------------------------------------- R1
@@ -205,6 +209,75 @@ def r1_compare(ctx, schema, ci, wf, rf, ew: Extractor, er: Extractor) -> None:
   if not problems:
     ctx.ok('R1', inst, wf.node, f'{len(W)} written leaves / {len(R)} read leaves agree '
            f'(+{len(Wwild | Rwild)} through wildcards or hand-offs)')
+
+
+# ----------------------------------------------------------------------- R9
+def r9_time_conventions(ctx, mi) -> None:
+  """Times cross the wire as epoch seconds/nanos and come back through the same convention.
+
+  pyvizier's Trial normalises its datetimes with astimezone() (naive = local time).  Timestamp.ToDatetime()
+  without tzinfo, datetime.utcfromtimestamp() and utcnow() produce *naive UTC* values, which astimezone() then
+  reads as local time: every time shifts by the host's UTC offset (invisible on UTC machines).
+  """
+  n_ok = 0
+  hits = []
+  for x in ast.walk(mi.tree):
+    if not isinstance(x, ast.Call):
+      continue
+    d = dotted(x.func) or ''
+    last = d.rsplit('.', 1)[-1]
+    if last == 'ToDatetime' and not any(k.arg == 'tzinfo' for k in x.keywords):
+      hits.append(x)
+    elif last in ('utcfromtimestamp', 'utcnow'):
+      hits.append(x)
+    elif last in ('fromtimestamp', 'timestamp'):
+      n_ok += 1
+  fn = lambda x: next((a.name for a in __import__('vzstatic.source', fromlist=['ancestors']).ancestors(x) if isinstance(a, ast.FunctionDef)), '?')
+  for h in hits:
+    ctx.bad('R9', f'{fn(h)}: `{unparse(h, 50)}`', h,
+            f'`{unparse(h, 60)}` yields a naive UTC datetime; the Python-side class interprets naive datetimes as local time, so on a host '
+            'whose UTC offset is not zero every converted time is shifted by the offset and a second conversion differs',
+            construct=f'{fn(h)}:naive-utc', func=f'{mi.name}.{fn(h)}')
+  if not hits and n_ok == 0:
+    raise AnalysisError('no datetime <-> Timestamp conversion found in proto_converters (fromtimestamp/timestamp: 4 on the pinned tree)')
+  if not hits:
+    ctx.ok('R9', 'time conversions are epoch-based (fromtimestamp / timestamp)', mi.tree, f'{n_ok} sites; no naive-UTC helper')
+
+
+# ----------------------------------------------------------------------- R8
+def r8_children_not_keyed_by_name(ctx, mi) -> None:
+  """Conditional children are identified by (parent value, name): the same name may be defined differently
+  under two parent values, so conversion code must not collect `child_parameter_configs` in a map keyed by name."""
+  ci = mi.classes.get('ParameterConfigConverter')
+  if ci is None:
+    raise AnalysisError('ParameterConfigConverter not found')
+  n = 0
+  for m in ci.methods.values():
+    loops = [x for x in ast.walk(m.node) if isinstance(x, (ast.For, ast.comprehension))
+             and 'child_parameter_configs' in unparse(x.iter, 0)]
+    if not loops:
+      continue
+    n += 1
+    lvars = {nm.id for l in loops for nm in ast.walk(l.target) if isinstance(nm, ast.Name)}
+    hits = []
+    for x in ast.walk(m.node):
+      key = None
+      if isinstance(x, ast.Subscript) and isinstance(x.ctx, ast.Store):
+        key = x.slice
+      elif isinstance(x, ast.Call) and isinstance(x.func, ast.Attribute) and x.func.attr in ('setdefault', 'get', 'pop') and x.args:
+        key = x.args[0]
+      elif isinstance(x, ast.DictComp):
+        key = x.key
+      if key is not None and isinstance(key, ast.Attribute) and key.attr == 'name' and isinstance(key.value, ast.Name) \
+          and key.value.id in lvars:
+        hits.append(x)
+    ctx.check(not hits, 'R8', f'{ci.name}.{m.name}: children kept per (parent value, child)', hits[0] if hits else m.node,
+              'children are converted one by one, never merged by name',
+              f'`{unparse(hits[0], 70) if hits else ""}` collects the children in a map keyed by their name: children with the same name '
+              'under different parent values (e.g. lr LOG under adam, lr LINEAR under sgd) are merged into one spec, so the later '
+              'branches silently receive the first definition', construct=f'{m.name}:keyed-by-name', func=m.qualname)
+  if n == 0:
+    raise AnalysisError('no method of ParameterConfigConverter iterates child_parameter_configs')
 
 
 # ----------------------------------------------------------------------- R3
